@@ -137,6 +137,8 @@ PROPS["C08"] = dict(
     explanation="",
 )
 
+verus_unit("polyv", "poly", ["C20"], ["polynom::add", "polynom::sub", "polynom::mul", "polynom::mul_by_scalar", "polynom::degree_of", "utils::fill_power_series"])
+
 native_unit("poly_native", "winter-math", "math", "native/poly_bounded.rs", ["C20"],
             ["polynom::{eval, eval_many, add, sub, mul, mul_by_scalar, div, syn_div, syn_div_in_place, syn_div_roots_in_place, interpolate, interpolate_batch, poly_from_roots, degree_of, remove_leading_zeros}", "utils::{get_power_series, get_power_series_with_offset, add_in_place, mul_acc, batch_inversion}"],
             "every function agrees with its defining identity, checked against a naive reference written in the stand-in (schoolbook product, evaluation by explicit powers): sums / differences / products / scalar multiples, quotient * divisor + remainder = dividend with deg remainder < deg divisor (long, synthetic by x^a - b, by roots), interpolation passes through the points with degree < n, expansion from roots is the monic product, degrees, power series, in-place accumulation, batch inversion with zeros preserved; nothing panics inside the documented domains",
